@@ -726,6 +726,11 @@ func (c *evalCtx) call(x *ECall) val {
 		a, b := c.eval(x.Args[0]), c.eval(x.Args[1])
 		a, b = c.unify(a, b)
 		return val{t: fmt.Sprintf("(= %s %s)", a.t, b.t), typ: tBool}
+	case "bstr": // bstr(b): the string conversion of a byte slice (the generator's bytes2str bridge)
+		argN(1)
+		v := c.eval(x.Args[0])
+		vc.eng.needBridge = true
+		return val{t: fmt.Sprintf("(bytes2str %s)", v.t), typ: types.Typ[types.String]}
 	case "isnilslice":
 		argN(1)
 		v := c.eval(x.Args[0])
